@@ -37,6 +37,7 @@ def run(ctx):
     ctx.floor("C12.D2", "pushes into the `_sd` vector", len(I.sd_pushes), 2)
     # ---- every object passes through the builder
     routes(ctx, fx, I)
+    d1_root_keys(ctx, fx, I)
     # ---- D2 / classification of pushes
     decoy_pushes = []
     for (b, n) in I.sd_pushes:
@@ -278,6 +279,13 @@ def flag_provenance(ctx, fx, I):
         ctx.ok("C12.D1", I.issue, "flag-provenance", "self.add_decoy_claims is assigned from the add_decoy_claims parameter before the payload is built")
     else:
         ctx.finding("C12.D1", I.issue, "flag-provenance", "the decoy flag used by the object builder does not (on every path) come from this call's add_decoy_claims argument")
+
+
+def d1_root_keys(ctx, fx, I):
+    """objects that bypass the builders get no decoys: the only root members taken out before the marking walk are iss / iat / exp (scalars by
+    their definition); the always-visible clause of C05.P3 judged under C12"""
+    import c05
+    c05.p3(common.RelabelCtx(ctx, "C12.D1", keep=("always-visible",)), fx, I)
 
 
 def d5(ctx, fx):
